@@ -53,7 +53,7 @@ CHECKS = {
       text="Exploration guided by the MxSession state space: every configuration (TLS 1.1-1.3, DTLS 1.0/1.2 incl. small path MTUs that fragment handshake messages, resumed, tickets, PSK, client auth, early data) x every stop point of its handshake x both roles x structure-aware and random mutations (byte flips, record / handshake / DTLS fragment header fields incl. later fragments that lie about message length and offset, truncation, garbage, injected records of every type up to 20000 bytes, records forged under the session keys with random handshake types and bodies, re-framed / duplicated / deleted / swapped handshake messages, replays, reflections, pairs of these) x continuation (more traffic, closure, timers, deletion), executed on the ASan + LSan + UBSan build with time limits. Alarms: sanitizer reports, leaks at process end, time-outs / loop guards, undocumented return values of matrixSslReceivedData. The universal quantifier over all byte strings is sampled, not exhausted - hence exploration.",
       technique="spec-guided exploration: MxSession stop points x mutation grammar on the sanitizer build; traces also validated against MxSession_Trace (reported, not alarmed)"),
   "C19": dict(level="fault_enumeration", design="3.8, 4 (C19)",
-      text="Single-fault enumeration over the library's allocator: each scenario (7 version / key-exchange modes x client and server verifier x honest, defective-credential and defective-proof peers from the C04 generator, covering key loading, session creation, handshake, application data, closure, deletion) is first run to count its allocations (100 - 38000), then re-run with the k-th allocation failing - every k in the thorough tier, the first 12 plus an even spread plus a random sample in the quick tier - each run in its own process on the ASan/UBSan build with LeakSanitizer's leak check after all objects are deleted. Alarms: crash, sanitizer report, leak, hang, and any trace MxAuth_Trace rejects: under a fault a handshake may fail, but it may not complete with a verification step skipped (defective credentials / proofs never complete, a permissive callback must still be told a failure).",
+      text="Single-fault enumeration over the library's allocator: each scenario (7 version / key-exchange modes x client and server verifier x honest, defective-credential and defective-proof peers from the C04 generator, covering key loading, session creation, handshake, application data, closure, deletion) is first run to count its allocations (100 - 38000), then re-run with the k-th allocation failing - every k in the thorough tier; in the quick tier every distinct allocation call site (innermost return addresses, recorded by the counting run) at least once, rarest first, up to 240 per scenario, plus the first 8 and a random sample - each run in its own process on the ASan/UBSan build with LeakSanitizer's leak check after all objects are deleted. Follow-up scenarios (session id, RFC 5077 ticket, TLS 1.3 PSK stored in an application-owned handle during the faulted connection; then, with injection off, a second connection with the same handle and key set) must complete: state left behind by the failed allocation may not break fault-free use. Alarms: crash, sanitizer report, leak, hang, a follow-up connection that does not complete, and any trace MxAuth_Trace rejects: under a fault a handshake may fail, but it may not complete with a verification step skipped (defective credentials / proofs never complete, a permissive callback must still be told a failure).",
       technique="exhaustive single allocation-fault injection (Malloc/Calloc/Realloc redefined at build time) + sanitizers + trace validation against MxAuth_Trace (fault-lenient mode)"),
   "C10": dict(level="model_checking", design="3.4, 4 (C10)",
       text="The outcome MxNegotiate prescribes for two endpoints restricted to one mutually supported (version, suite) is stated as MxInterop_Trace; every combination of role assignment x TLS 1.1/1.2/1.3 x 23 suite/key pairs x {plain, client authentication, resumption by session id / ticket / TLS 1.3 ticket, client auth + ticket, each ECDHE / TLS 1.3 group, each signature algorithm with and without client auth, HelloRetryRequest flows incl. resumption} is executed between the library and OpenSSL 3.5's libssl over memory BIOs with payloads of 1 to 40000 bytes in both directions, and TLC judges each run: both complete with that version and suite, every payload arrives intact both ways on the first and on the resumed connection, both stacks agree that the second connection was resumed.",
